@@ -25,7 +25,21 @@ type sentinel struct {
 	root     string
 	pristine snapshot
 	made     bool
+	dirty    bool // the directory may differ from pristine
 }
+
+// ensure makes the sentinel pristine again if a previous run changed it.
+func (s *sentinel) ensure() {
+	if s.dirty {
+		s.rebuild()
+	}
+}
+
+// note records the state seen after a run.
+func (s *sentinel) note(now snapshot) {
+	s.dirty = !now.equal(s.pristine)
+}
+
 
 var sent = &sentinel{}
 
@@ -88,6 +102,7 @@ func (s *sentinel) rebuild() {
 	must(os.WriteFile(s.path("mod.lua"), []byte("C08_MOD_LOADED = true\nreturn \""+secret+"\"\n"), 0644))
 	must(os.WriteFile(s.path("dir/inner.txt"), []byte(secret+"-inner\n"), 0644))
 	s.pristine = s.snap()
+	s.dirty = false
 }
 
 func (s *sentinel) remove() {
@@ -103,31 +118,53 @@ type snapshot map[string]string
 
 func (s *sentinel) snap() snapshot {
 	out := snapshot{}
-	filepath.WalkDir(s.root, func(p string, d os.DirEntry, err error) error {
-		if err != nil {
-			return nil
-		}
-		rel, _ := filepath.Rel(s.root, p)
-		if rel == "." {
-			return nil
-		}
-		if d.IsDir() {
-			out[rel] = "d"
-			return nil
-		}
-		if !d.Type().IsRegular() {
-			out[rel] = "o:" + d.Type().String()
-			return nil
-		}
-		b, err := os.ReadFile(p)
-		if err != nil {
-			out[rel] = "unreadable"
-			return nil
-		}
-		out[rel] = "f:" + string(b)
-		return nil
-	})
+	s.snapDir("", out)
 	return out
+}
+
+// snapDir uses raw system calls (open/getdents/read/close): a snapshot is
+// taken several times per case.
+func (s *sentinel) snapDir(rel string, out snapshot) {
+	ents, err := os.ReadDir(filepath.Join(s.root, rel))
+	if err != nil {
+		out[rel+"/?"] = "unreadable-dir"
+		return
+	}
+	var buf [4096]byte
+	for _, d := range ents {
+		r := d.Name()
+		if rel != "" {
+			r = rel + "/" + r
+		}
+		switch {
+		case d.IsDir():
+			out[r] = "d"
+			s.snapDir(r, out)
+		case !d.Type().IsRegular():
+			out[r] = "o:" + d.Type().String()
+		default:
+			fd, err := syscall.Open(filepath.Join(s.root, r), syscall.O_RDONLY|syscall.O_CLOEXEC, 0)
+			if err != nil {
+				out[r] = "unreadable"
+				continue
+			}
+			var content []byte
+			for {
+				n, err := syscall.Read(fd, buf[:])
+				if n > 0 {
+					content = append(content, buf[:n]...)
+				}
+				if err == syscall.EINTR {
+					continue
+				}
+				if n < len(buf) || err != nil {
+					break
+				}
+			}
+			syscall.Close(fd)
+			out[r] = "f:" + string(content)
+		}
+	}
 }
 
 // diff lists the differences between two snapshots, sorted.  Names of
